@@ -375,8 +375,19 @@ func BuildNamespaces(stepLifecycles map[string]step.Lifecycle[step.LifecycleStag
 func applyLifecycleNamespaces(
 	stepLifecycles map[string]step.Lifecycle[step.LifecycleStageWithSchema],
 	typedInput schema.Scope,
-) error {
-	return applyAllNamespaces(BuildNamespaces(stepLifecycles), typedInput)
+) (err error) {
+	allNamespaces := BuildNamespaces(stepLifecycles)
+	defer func() {
+		// Applying a namespace panics if a reference names an object the namespace does not contain.
+		if r := recover(); r != nil {
+			err = fmt.Errorf(
+				"error validating references for workflow input (%v)\nAvailable namespaces and objects:%s",
+				r,
+				util.BuildNamespaceString(allNamespaces),
+			)
+		}
+	}()
+	return applyAllNamespaces(allNamespaces, typedInput)
 }
 
 // applyAllNamespaces applies all namespaces to the given scope.
